@@ -6,6 +6,8 @@
                  whose arguments ticked     notification schedules the idle child for now (push half)
        Eval removed added ticked full       map_evaluate_impl: reconcile from the key-set delta, candidates,
                                             queue drains, evaluation loop, re-arm
+   (the Eval only if the node's slot holds the cycle time or an input ticked - [c_required] - or the
+   environment forces a harmless extra evaluation; otherwise the cycle passes the node by: [node_idle])
    The evaluation set is NOT assumed: a child is stepped iff MapSched's [evaluated_in] says so.  What the
    environment may choose freely is quantified: the slot the key set gives to an added key ([x_alloc]),
    the sparse candidate hints ([x_tk], [x_full]).  A child that is evaluated reports as its new
@@ -18,7 +20,8 @@ Require Import Base MapSpec MapSched MapEval.
 Record env := mkEnv {
   x_alloc : Z -> nat;        (* the slot the key set assigns to a key added in this cycle *)
   x_tk : list nat;           (* slots the sparse candidate logic adds (modified element slots, ...) *)
-  x_full : bool }.           (* full scan *)
+  x_full : bool;             (* full scan *)
+  x_force : bool }.          (* the map node is evaluated although nothing requires it (harmless extra evaluation) *)
 
 Record nstate (S : Type) := mkN {
   n_sch : MapSched.st;
@@ -115,6 +118,17 @@ Definition node_cycle : nstate S :=
   mkN c_sch3 (fun s => option_map fst (c_res s)) c_slot' (fun j => map fst (c_nv j)) (n_primed n || prime)
       ((c_t c, prime, map (fun j => (j, c_ev j)) keys) :: n_log n).
 
+(* Is the map node evaluated in this cycle of the owning graph?  It must be when its slot holds the cycle time
+   or one of its inputs ticked; otherwise the cycle passes it by: only the owning graph's clock moves. *)
+Definition c_required : bool :=
+  (s_pslot c_sch2 =? c_t c) || negb (match c_ops c with [] => true | _ :: _ => false end) || any_mod (c_bc c).
+
+Definition node_idle : nstate S :=
+  mkN (do_tick (c_t c) (n_sch n)) (n_store n) (n_slot n) (n_vals n) (n_primed n)
+      ((c_t c, false, map (fun j => (j, no_ev)) keys) :: n_log n).
+
+Definition node_step : nstate S := if x_force x || c_required then node_cycle else node_idle.
+
 (* what the environment must respect in a cycle: the engine does not step over the parent's slot (C02), runs stay
    within [MIN_ST, MAX_ET] (validate_times), and
    the key set hands out free, pairwise distinct slots *)
@@ -129,10 +143,10 @@ Definition step_ok : Prop :=
 End Cycle.
 
 Definition node_run {S} (B : Z -> body S) (keys : list Z) (n : nstate S) (h : list (cyc * env)) : nstate S :=
-  fold_left (fun n cx => node_cycle B keys n (fst cx) (snd cx)) h n.
+  fold_left (fun n cx => node_step B keys n (fst cx) (snd cx)) h n.
 
 Fixpoint run_ok {S} (B : Z -> body S) (keys : list Z) (n : nstate S) (h : list (cyc * env)) : Prop :=
   match h with
   | [] => True
-  | cx :: r => step_ok keys n (fst cx) (snd cx) /\ run_ok B keys (node_cycle B keys n (fst cx) (snd cx)) r
+  | cx :: r => step_ok keys n (fst cx) (snd cx) /\ run_ok B keys (node_step B keys n (fst cx) (snd cx)) r
   end.
